@@ -22,7 +22,7 @@ run_one() {
   echo "$line" >> $out
   git -C $repo checkout -q -- .
 }
-for d in $here/seeded/C* $here/seeded/R[0-9]_*; do run_one $(basename $d) $d/patch.diff; done
+for d in $here/seeded/C* $here/seeded/R[0-9A-Z]_*; do run_one $(basename $d) $d/patch.diff; done
 for h in $here/seeded/harmless/h*.diff; do run_one harmless-$(basename $h .diff) $h; done
 git -C $repo status --short >> $out
 echo DONE >> $out
